@@ -702,3 +702,34 @@ Section HintikkaCor.
     rewrite Hx in Hc. discriminate.
   Qed.
 End HintikkaCor.
+
+(* ---- the branch conditions as one boolean ---- *)
+Definition branch_okb (L : flogic) (b : list node) (tk : list nat) : bool :=
+  match unsaturated L b tk with [] => true | _ => false end &&
+  negb (branch_closed (fl_ks L) b) &&
+  forallb (node_des_ok (fl_hd L)) b &&
+  forallb (fun n => match n with
+                    | NS s _ _ => interp (fl_S L) s && wfq s && closedb [] s
+                    | NA _ _ => true end) b &&
+  (negb (existsb (fun n => match n with NS s _ _ => has_quant s | _ => false end) b) ||
+   negb (match branch_consts b with [] => true | _ => false end)).
+
+Lemma branch_okb_spec L b tk : branch_okb L b tk = true -> branch_ok L b tk.
+Proof.
+  unfold branch_okb. rewrite !andb_true_iff. intros [[[[H1 H2] H3] H4] H5].
+  rewrite forallb_forall in H3, H4.
+  constructor.
+  - destruct (unsaturated L b tk); [reflexivity|discriminate].
+  - apply negb_true_iff in H2. exact H2.
+  - intros n Hn. apply H3. exact Hn.
+  - intros s d w Hin. specialize (H4 _ Hin). simpl in H4. rewrite !andb_true_iff in H4. tauto.
+  - intros s d w Hin. specialize (H4 _ Hin). simpl in H4. rewrite !andb_true_iff in H4. tauto.
+  - intros s d w Hin. specialize (H4 _ Hin). simpl in H4. rewrite !andb_true_iff in H4. tauto.
+  - intros Hq E. apply orb_true_iff in H5. destruct H5 as [H5|H5].
+    + rewrite Hq in H5. discriminate.
+    + rewrite E in H5. discriminate.
+Qed.
+
+Theorem hintikka_b L dv ws b tk : complete_okF L dv ws -> branch_okb L b tk = true ->
+  forall n, In n b -> isat (fl_S L) (bmodel L dv b) idw n.
+Proof. intros OK H. apply (hintikka L dv ws b tk OK (branch_okb_spec L b tk H)). Qed.
